@@ -49,6 +49,12 @@ func (n *AhocorasickSlimtrie) AddSet(bitIndex int, patterns []string, typ consts
 	if n.err != nil {
 		return
 	}
+	if bitIndex < 0 || bitIndex >= len(n.toBuildTrie) {
+		// More match sets than the matcher was sized for: report it from Build
+		// instead of indexing out of range.
+		n.err = fmt.Errorf("too many match sets: index %v exceeds the supported %v", bitIndex, len(n.toBuildTrie))
+		return
+	}
 nextPattern:
 	for _, d := range patterns {
 		switch typ {
